@@ -342,5 +342,77 @@ pub proof fn lemma_step_bg(st0: ansi_term::Style, st1: ansi_term::Style, fl0: (b
 //@| }),
 //@before <<<if foreground_is_auto>>>| proof { reveal(ps_inv); }
 
+// ---------------------------------------------------------------- _extract_special_decoration_attributes: which words are taken out of a style string
+/// mirror of the bitflags type DecorationAttributes (EMPTY 0, BOX 1, OVERLINE 2, UNDERLINE 4), opaque but for its bits
+#[verifier::external_body]
+pub struct DecorationAttributes { _p: u8 }
+impl DecorationAttributes {
+    pub uninterp spec fn bits(&self) -> u8;
+}
+/// (R3) `DecorationAttributes::EMPTY` and `attributes |= DecorationAttributes::X` (bitflags!: a macro-generated type)
+#[verifier::external_body]
+pub fn verif_no_decoration() -> (r: DecorationAttributes) ensures r.bits() == 0 { unimplemented!() }
+#[verifier::external_body]
+pub fn verif_add_decoration(a: &mut DecorationAttributes, bit: u8) ensures final(a).bits() == old(a).bits() | bit { unimplemented!() }
+/// (R3) the word iterator `style_string.split_whitespace().map(|word| word.trim_matches(quotes))`; uninterpreted
+pub uninterp spec fn words_trimmed_spec(s: Seq<char>) -> Seq<Seq<char>>;
+#[verifier::external_body]
+pub fn verif_words_trimmed<'a>(s: &'a str) -> (r: Vec<&'a str>)
+    ensures r@.len() == words_trimmed_spec(s@).len(), forall|j: int| 0 <= j < r@.len() ==> (#[trigger] r@[j])@ == words_trimmed_spec(s@)[j],
+{ unimplemented!() }
+pub uninterp spec fn lower_spec(s: Seq<char>) -> Seq<char>;
+pub assume_specification[ str::to_lowercase ](s: &str) -> (r: String)
+    ensures r@ == lower_spec(s@);
+/// (R3) `new_style_string.join(" ")`; uninterpreted function of the words
+pub uninterp spec fn join_spec(words: Seq<Seq<char>>) -> Seq<char>;
+#[verifier::external_body]
+pub fn verif_join_with_space(v: &Vec<&str>) -> (r: String)
+    ensures r@ == join_spec(v@.map_values(|x: &str| x@)),
+{ unimplemented!() }
+
+/// the decoration a word asks for (0: the word is not a decoration word); `ol` / `ul` only in a decoration style string
+pub open spec fn deco_bit(x: Seq<char>, is_deco: bool) -> u8 {
+    if x == "box"@ { 1u8 } else if x == "overline"@ || (is_deco && x == "ol"@) { 2u8 } else if x == "underline"@ || (is_deco && x == "ul"@) { 4u8 } else { 0u8 }
+}
+/// a word that is taken out of the style string: a decoration word, or `none` / `plain`
+pub open spec fn taken_out(x: Seq<char>, is_deco: bool) -> bool { deco_bit(x, is_deco) != 0 || x == "none"@ || x == "plain"@ }
+/// the words that are left for the style parser, in order
+pub open spec fn kept_words(w: Seq<Seq<char>>, k: int, is_deco: bool) -> Seq<Seq<char>>
+    decreases k
+{
+    if k <= 0 || k > w.len() { Seq::empty() } else {
+        let p = kept_words(w, k - 1, is_deco);
+        if taken_out(w[k - 1], is_deco) { p } else { p.push(w[k - 1]) }
+    }
+}
+pub open spec fn deco_bits(w: Seq<Seq<char>>, k: int, is_deco: bool) -> u8
+    decreases k
+{
+    if k <= 0 || k > w.len() { 0u8 } else if deco_bit(w[k - 1], is_deco) == 0 { deco_bits(w, k - 1, is_deco) } else { deco_bits(w, k - 1, is_deco) | deco_bit(w[k - 1], is_deco) }
+}
+//@ fn src/parse_style.rs _extract_special_decoration_attributes
+//@| ensures ({ let w = words_trimmed_spec(lower_spec(style_string@));
+//@|     &&& r.1@ == join_spec(kept_words(w, w.len() as int, is_decoration_style_string))  // @C12:exactly.the.decoration.words.and.none.plain.are.taken.out.of.a.style.string.every.other.word.reaches.the.style.parser.in.order
+//@|     &&& r.0.bits() == deco_bits(w, w.len() as int, is_decoration_style_string)  // @C12:the.decoration.is.the.union.of.the.decoration.words
+//@| }),
+//@rewrite <<<DecorationAttributes::EMPTY>>> => <<<verif_no_decoration()>>>
+//@rewrite <<<for token in style_string .split_whitespace() .map(|word| word.trim_matches(|c| c == '"' || c == '\''))>>> => <<<for token in it: verif_words_trimmed(&style_string)>>>
+//@rewrite <<<"box" => attributes |= DecorationAttributes::BOX,>>> => <<<token if token == "box" => { verif_add_decoration(&mut attributes, 1u8) }>>>
+//@rewrite <<<attributes |= DecorationAttributes::OVERLINE>>> => <<<verif_add_decoration(&mut attributes, 2u8)>>>
+//@rewrite <<<attributes |= DecorationAttributes::UNDERLINE>>> => <<<verif_add_decoration(&mut attributes, 4u8)>>>
+//@rewrite <<<new_style_string.join(" ")>>> => <<<verif_join_with_space(&new_style_string)>>>
+//@before <<<for token in it: verif_words_trimmed(&style_string)>>>| let ghost w = words_trimmed_spec(style_string@);
+//@loop 1| invariant it.seq().len() == w.len(), forall|j: int| 0 <= j < w.len() ==> (#[trigger] it.seq()[j])@ == w[j], w == words_trimmed_spec(style_string@),
+//@loop 1|     new_style_string@.map_values(|x: &str| x@) =~= kept_words(w, it.index@ as int, is_decoration_style_string),
+//@loop 1|     attributes.bits() == deco_bits(w, it.index@ as int, is_decoration_style_string),
+//@before <<<match token {>>>| proof { assert(token@ == w[it.index@ as int]); reveal_with_fuel(kept_words, 2); reveal_with_fuel(deco_bits, 2); lemma_deco_words_revealed(); }
+
+pub proof fn lemma_deco_words_revealed()
+    ensures wid("box"@) == (3nat, 'b', 'o'), wid("overline"@) == (8nat, 'o', 'v'), wid("ol"@) == (2nat, 'o', 'l'), wid("underline"@) == (9nat, 'u', 'n'),
+            wid("ul"@) == (2nat, 'u', 'l'), wid("none"@) == (4nat, 'n', 'o'), wid("plain"@) == (5nat, 'p', 'l'),
+{
+    reveal_strlit("box"); reveal_strlit("overline"); reveal_strlit("ol"); reveal_strlit("underline"); reveal_strlit("ul"); reveal_strlit("none"); reveal_strlit("plain");
+}
+
 } // verus!
 fn main() {}
